@@ -307,8 +307,12 @@ def replay_behaviour(arg):
                 problems.append((finding_key(pid, ev, m), f"{m}  (event {k}: {op} {str(ev['arg'])[:150]})", k))
                 return problems
             if twin is not None:
+                # (the clone is contiguous, the original may be a strided view: summation order,
+                # hence rounding, may differ at the precision of the array's dtype)
+                lowp = np.asarray(res.array).dtype in (np.float32, np.complex64, np.float16)
                 same = (type(twin) is type(res) and twin.shape == res.shape
-                        and np.allclose(twin.array, res.array, rtol=1e-12, atol=1e-12)
+                        and np.allclose(twin.array, res.array, rtol=1e-4 if lowp else 1e-11,
+                                        atol=(1e-4 if lowp else 1e-11) * (1 + float(np.abs(res.array).max(initial=0))))
                         and np.allclose(twin.origin, res.origin) and np.allclose(twin.sampling, res.sampling)
                         and list(twin.units) == list(res.units))
                 if not same:
